@@ -221,10 +221,10 @@ package memfs
 //@   ensures foralls(s, s != name ==> has(d.index, s) == old(has(d.index, s)) && d.index[s] == old(d.index[s]))
 //@   ensures result != nil ==> len(d.nodes) == old(len(d.nodes)) && forall(k, 0 <= k && k < len(d.nodes) ==> d.nodes[k] == old(d.nodes[k]))
 //@   loop 1 invariant [C01 C04] Tree()
-//@   loop 1 invariant 0 <= i && i <= len(d.nodes) && DirInv(d) && held(d.mu)
-//@   loop 1 invariant forall(k, 0 <= k && k < i ==> nodeName(d.nodes[k]) != name)
+//@   loop 1 invariant -1 <= $i && $i < len(d.nodes) && DirInv(d) && held(d.mu)
+//@   loop 1 invariant forall(k, 0 <= k && k <= $i ==> nodeName(d.nodes[k]) != name)
 //@   loop 1 invariant [C01 C04] ref(d.index) == old(ref(d.index)) && len(d.nodes) == old(len(d.nodes)) && foralls(s, has(d.index, s) == old(has(d.index, s)) && d.index[s] == old(d.index[s])) && forall(k, 0 <= k && k < len(d.nodes) ==> d.nodes[k] == old(d.nodes[k]))
-//@   loop 1 decreases len(d.nodes) - i
+//@   loop 1 decreases len(d.nodes) - $i
 
 // a new directory over the given nodes (distinct normal names); the listing slice is adopted
 //@ func NewDir [C01]
@@ -326,7 +326,7 @@ package memfs
 //@   requires Tree() && isa(d, "memfs.Dir")
 //@   modifies memfs.Dir.nodes, M:string:fs.FileInfo, E:fs.FileInfo, $maplen
 //@   ensures Tree()
-//@   at_call removeNodeByName requires !emptyOnly || !typeis(dirNode.index[$1], "*memfs.Dir") || len(as(dirNode.index[$1], "*memfs.Dir").nodes) == 0
+//@   at_call removeNodeByName requires !emptyOnly || !typeis($0.index[$1], "*memfs.Dir") || len(as($0.index[$1], "*memfs.Dir").nodes) == 0
 //@ func removeNodeByPath [C01 C09]
 //@   requires Tree() && isa(d, "memfs.Dir")
 //@   modifies memfs.Dir.nodes, M:string:fs.FileInfo, E:fs.FileInfo, $maplen
@@ -347,11 +347,11 @@ package memfs
 //@   ensures result1 == nil ==> fresh(result0) && isa(result0, "memfs.Dir") && result0.name == newName && len(result0.nodes) == len(d.nodes)
 //@   ensures result1 == nil ==> forall(k, 0 <= k && k < len(d.nodes) ==> fresh(payload(result0.nodes[k])) && tag(result0.nodes[k]) == tag(d.nodes[k]) && nodeName(result0.nodes[k]) == nodeName(d.nodes[k]))
 //@   ensures forallp(r, dyntype(r), isa(r, "memfs.Dir") && !old(allocated(r)) ==> !old(allocated(arr(ptr(r, "memfs.Dir").nodes))))
-//@   loop 1 invariant 0 <= i && i <= len(d.nodes) && len(nodescopy) == len(d.nodes) && off(nodescopy) == 0 && heldR(d.mu)
+//@   loop 1 invariant -1 <= $i && $i < len(d.nodes) && len(nodescopy) == len(d.nodes) && off(nodescopy) == 0 && heldR(d.mu)
 //@   loop 1 invariant [C01 C04] Tree() && fresh(arr(nodescopy)) && allocated(arr(nodescopy)) && Unowned(arr(nodescopy))
-//@   loop 1 invariant [C01 C04] forall(k, 0 <= k && k < i ==> isNode(nodescopy[k]) && fresh(payload(nodescopy[k])) && tag(nodescopy[k]) == tag(d.nodes[k]) && nodeName(nodescopy[k]) == nodeName(d.nodes[k]))
+//@   loop 1 invariant [C01 C04] forall(k, 0 <= k && k <= $i ==> isNode(nodescopy[k]) && fresh(payload(nodescopy[k])) && tag(nodescopy[k]) == tag(d.nodes[k]) && nodeName(nodescopy[k]) == nodeName(d.nodes[k]))
 //@   loop 1 invariant [C01 C04] forallp(r, dyntype(r), isa(r, "memfs.Dir") && !old(allocated(r)) ==> !old(allocated(arr(ptr(r, "memfs.Dir").nodes))))
-//@   loop 1 decreases len(d.nodes) - i
+//@   loop 1 decreases len(d.nodes) - $i
 //@ func copyNode [C01 C09]
 //@   requires Tree() && isNode(node)
 //@   modifies $none
